@@ -3,24 +3,35 @@ import Pycoin.Proofs.SignDer
 import Pycoin.Proofs.SignEval
 import Pycoin.Proofs.SignLink
 import Pycoin.Proofs.SignOrder
+import Pycoin.Proofs.SignKeychain
+import Pycoin.Model.SignSecp
+import Pycoin.Props.C01
+import Pycoin.Props.C10
+import Pycoin.Props.C04
+import Pycoin.Proofs.SecRt
 /-!
 C05 — property theorems about the signer model (`Model/Sign.lean`).
 
 * `C05_sig_canonical`, `C05_sig_passes_encoding_checks`, `C05_solver_emits_canonical`: what the signer emits is strict DER
   (BIP66 `IsValidSignatureEncoding` of the consensus specification), low-S (`IsLowDERSignature`'s lax parse + `s ≤ n/2`),
   and ends with the requested hash-type byte (with the fork-id bit on fork-id coins);
-* `C05_lowS_preserves_verify_partial`;
+* `C05_lowS_preserves_verify` (full, from `C01_verify_neg_s`);
+* `C05_p2wpkh_end_to_end`, `C05_p2sh_p2wpkh_end_to_end`, `C05_p2pkh_end_to_end`, `C05_p2pk_end_to_end`: for every secret, tx and
+  input, the model's signature is accepted by `VerifyScript` with `CheckSig` = ECDSA-verify (C01) of the C04 digest;
+* `C05_witness_digest_is_bip143`, `C05_legacy_digest_is_consensus`: the digest of those theorems is the consensus one (C04);
+* `C05_multisig_valid_partial`, `C05_multisig_p2wsh_valid_partial`: full-script m-of-n for all 1 ≤ m ≤ n ≤ 16, bare and P2WSH;
+* `C05_keychain_get_spec`, `C05_keychain_no_negative_cache`, `C05_keychain_miss_then_hit`, `C05_keychain_add_secret`;
 * `C05_p2pkh_valid`, `C05_p2pk_valid`, `C05_p2wpkh_valid`, `C05_p2sh_p2wpkh_valid` (+ `_signed_valid` forms): `VerifyScript` of
   `Spec/Consensus.lean` accepts the solutions, for every flag set under which signature and key pass the encoding rules;
 * `C05_ecdsa_chk_accepts`: the emitted signature satisfies `CheckSig` instantiated with ECDSA-verify of the digest the model
   computes (C04's `Model/Sighash.lean` in the driver);
-* `C05_multisig_valid_partial`: the CHECKMULTISIG matching loop accepts signatures laid out in key order (any `m ≤ n`);
+* `C05_multisig_loop_accepts`: the CHECKMULTISIG matching loop accepts signatures laid out in key order (any `m ≤ n`);
 * `C05_partial_order_independent_partial`, `C05_partial_placeholders`, `C05_placeholder_invalid_partial`: partial multisig
   signing;
 * `C05_sign_frame`, `C05_sign_frame_empty`: nothing but script and witness of the chosen, not yet valid inputs changes.
 -/
 namespace Pycoin.Sign
-open Pycoin Pycoin.Spec.Consensus
+open Pycoin Pycoin.Spec.Consensus Pycoin.Curve
 
 /-! ## canonical signatures -/
 
@@ -260,9 +271,9 @@ theorem C05_solver_emits_canonical (C : Crypto) (hN : C.order = secp256k1N) (hC 
       · rw [List.mem_replicate] at hb'
         exact absurd hb'.2 (by simp)
 
-/-- **Low-S normalisation keeps the signature valid** — from the C01 fact `verify Q z (r, n − s) = verify Q z (r, s)`,
-which is not yet proved upstream and is therefore a hypothesis here. -/
-theorem C05_lowS_preserves_verify_partial (C : Crypto)
+/-- low-S normalisation keeps the verdict of any verifier that cannot tell `s` from `n − s` (helper; the full theorem for
+secp256k1, from `C01_verify_neg_s`, is `C05_lowS_preserves_verify` below) -/
+theorem lowS_preserves_verify_of_neg (C : Crypto)
     (hneg : ∀ Q z r s, C.verify Q z r ((C.order : Int) - s) = C.verify Q z r s) (Q : Curve.Pt) (z r s : Int) :
     C.verify Q z r (lowS C.order s) = C.verify Q z r s := by
   unfold lowS; split
@@ -395,14 +406,12 @@ def standardFlags : Flags := Flags.ofBits 0xFFFF
 example : standardFlags.strictenc = true ∧ standardFlags.lowS = true ∧ standardFlags.cleanstack = true ∧
     standardFlags.witness = true ∧ standardFlags.p2sh = true ∧ standardFlags.nullfail = true := by decide
 
-/-- **m-of-n multisig (partial).**  The signature/key matching loop of `OP_CHECKMULTISIG` in the consensus specification
+/-- **m-of-n multisig, the matching loop.**  The signature/key matching loop of `OP_CHECKMULTISIG` in the consensus specification
 accepts, for every `m ≤ n` (no bound on `n` is needed here), signatures that pass the encoding rules and verify for a
 subsequence of the keys — which is how the solver lays them out: `sig_list` is filled in increasing index of `sec_list`, the
 keys top of stack first (`solveBase`, `sortSigs`).  Induction over the keys.
-Not carried (hence `_partial`): the instruction-level evaluation around the loop (the `n + m + 3` pushes, op count, NULLDUMMY
-on the leading `OP_0`, CLEANSTACK) and the P2SH / P2WSH wrappers for symbolic `m, n`; these are exercised on the implementation
-for all `1 ≤ m ≤ n ≤ 20` within the script-size limits by the harness, with the result validated under the standard flags. -/
-theorem C05_multisig_valid_partial (chk : PChk) (flags : Flags) (sv : SigVersion) (code : Bytes) (keys sigs : List Bytes)
+The full scripts around the loop are `C05_multisig_valid_partial` (bare) and `C05_multisig_p2wsh_valid_partial` below. -/
+theorem C05_multisig_loop_accepts (chk : PChk) (flags : Flags) (sv : SigVersion) (code : Bytes) (keys sigs : List Bytes)
     (hemb : Embeds chk code sv sigs keys)
     (hs : ∀ s ∈ sigs, checkSignatureEncoding s flags = none) (hk : ∀ k ∈ keys, checkPubKeyEncoding k flags sv = none) :
     multisigLoop (m := Id) (liftChk chk) flags sv code sigs keys = .ok true :=
@@ -428,7 +437,7 @@ def ecdsaChk (C : Crypto) (dig : SigVersion → Bytes → Digest) : PChk := fun 
 
 /-- **The signer's signature satisfies the real `CheckSig`.**  If signing digest `z = dig sv code ht` with the secret gives
 `(r, s)` in range, and ECDSA-verify accepts `(r, low-S(s))` for the listed key (C01: `sign_verifies` and
-`C05_lowS_preserves_verify_partial`), then `ecdsaChk` accepts the emitted blob for that key and script code — the hypothesis
+`C05_lowS_preserves_verify`), then `ecdsaChk` accepts the emitted blob for that key and script code — the hypothesis
 `hchk` of the `_valid` theorems, now over the digest the model computes itself. -/
 theorem C05_ecdsa_chk_accepts (C : Crypto) (hN : C.order = secp256k1N) (dig : SigVersion → Bytes → Digest)
     (sv : SigVersion) (code key sig : Bytes) (Q : Curve.Pt) (z r s : Int) (ht : Nat) (hht : ht ≤ 255)
@@ -449,6 +458,84 @@ theorem C05_ecdsa_chk_accepts (C : Crypto) (hN : C.order = secp256k1N) (dig : Si
   have e1 : ((r.toNat : Nat) : Int) = r := by omega
   have e2 : (((lowS secp256k1N s).toNat : Nat) : Int) = lowS secp256k1N s := by omega
   rw [e1, e2, hv]
+
+/-- **Bare m-of-n multisig, full script** (`1 ≤ m ≤ n ≤ 16`, the `OP_n` encodings), by induction over the keys: the consensus
+specification accepts `OP_0 <sig>…` — the dummy first (NULLDUMMY), signatures in key order — against
+`OP_m <key>… OP_n CHECKMULTISIG` under every flag set for which signatures and keys pass the encoding rules, when `CheckSig`
+accepts the signatures for a subsequence of the keys.
+`_partial` relative to the property's clause: `n ≤ 16` (for 17 ≤ n ≤ 20 the counts are one-byte pushes, not `OP_n`), and the P2SH
+and P2SH-P2WSH wrappers (redeem-script pushes with PUSHDATA1/2) are not carried; those are exercised on the implementation by
+the harness for all `1 ≤ m ≤ n ≤ 20` within the size limits. -/
+theorem C05_multisig_valid_partial (chk : PChk) (m : Nat) (keys sigsTop : List Bytes) (flags : Flags) (tx : TxCtx)
+    (hm : sigsTop.length = m) (hm1 : 1 ≤ m) (hmn : m ≤ keys.length) (hn : keys.length ≤ 16)
+    (hkeys : ∀ k ∈ keys, 2 ≤ k.length ∧ k.length ≤ 75) (hsigs : ∀ s ∈ sigsTop, 2 ≤ s.length ∧ s.length ≤ 75)
+    (hse : ∀ s ∈ sigsTop, checkSignatureEncoding s flags = none)
+    (hke : ∀ k ∈ keys, checkPubKeyEncoding k flags .base = none)
+    (hemb : Embeds chk (scriptCodeFor ⟨multisigScript m keys, flags, .base, tx⟩ ⟨[], [], [], 0, 0⟩ sigsTop) .base
+      sigsTop keys.reverse) :
+    verifyScript chk (pushesOf ([] :: sigsTop.reverse)) (multisigScript m keys) [] flags tx = none := by
+  have hitems : ∀ d ∈ ([] : Bytes) :: sigsTop.reverse, d.length = 0 ∨ (2 ≤ d.length ∧ d.length ≤ 75) := by
+    intro d hd
+    rcases List.mem_cons.mp hd with h | h
+    · left; rw [h]; rfl
+    · right; exact hsigs d (List.mem_reverse.mp h)
+  apply verifyScript_plain chk _ _ flags tx (sigsTop ++ [[]]) [1]
+  · exact isPushOnly_pushes _ (fun d hd => by rcases hitems d hd with h | h <;> omega)
+  · have := evalScript_pushes chk ([] :: sigsTop.reverse) flags tx hitems (by simp; omega)
+    simpa using this
+  · exact evalScript_multisig chk m keys sigsTop flags tx .base hm hm1 hmn hn hkeys
+      (multisigLoop_accepts chk flags .base _ keys.reverse sigsTop hemb hse
+        (fun k hk => hke k (List.mem_reverse.mp hk)))
+  · simp [castToBool]
+  · exact multisig_not_witness m keys (by omega) hkeys
+  · exact multisig_not_p2sh m keys (by omega)
+
+/-- **P2WSH m-of-n multisig, full script** (`1 ≤ m ≤ n ≤ 16`): empty scriptSig, witness `[ "" , sig…, witnessScript ]` against
+`OP_0 <sha256 witnessScript>`; needs WITNESS and a program that is not all zero bytes. -/
+theorem C05_multisig_p2wsh_valid_partial (chk : PChk) (m : Nat) (keys sigsTop : List Bytes) (prog : Bytes) (flags : Flags) (tx : TxCtx)
+    (hw : flags.witness = true)
+    (hprog : Hash.sha256 (multisigScript m keys) = prog) (hplen : prog.length = 32) (htrue : castToBool prog = true)
+    (hm : sigsTop.length = m) (hm1 : 1 ≤ m) (hmn : m ≤ keys.length) (hn : keys.length ≤ 16)
+    (hkeys : ∀ k ∈ keys, 2 ≤ k.length ∧ k.length ≤ 75) (hsigs : ∀ s ∈ sigsTop, s.length ≤ 520)
+    (hse : ∀ s ∈ sigsTop, checkSignatureEncoding s flags = none)
+    (hke : ∀ k ∈ keys, checkPubKeyEncoding k flags .witnessV0 = none)
+    (hemb : Embeds chk (multisigScript m keys) .witnessV0 sigsTop keys.reverse) :
+    verifyScript chk [] (witnessV0Script prog) (([] : Bytes) :: sigsTop.reverse ++ [multisigScript m keys]) flags tx = none := by
+  have hcode : scriptCodeFor ⟨multisigScript m keys, flags, .witnessV0, tx⟩ ⟨[], [], [], 0, 0⟩ sigsTop = multisigScript m keys := by
+    simp [scriptCodeFor]
+  have hev := evalScript_multisig chk m keys sigsTop flags tx .witnessV0 hm hm1 hmn hn hkeys
+    (by rw [hcode]; exact multisigLoop_accepts chk flags .witnessV0 _ keys.reverse sigsTop hemb hse
+          (fun k hk => hke k (List.mem_reverse.mp hk)))
+  have hvw : verifyWitnessProgramM (m := Id) (fun a b c d => chk a b c d)
+      (([] : Bytes) :: sigsTop.reverse ++ [multisigScript m keys]) 0 prog flags tx = none := by
+    unfold verifyWitnessProgramM
+    have hrev : (([] : Bytes) :: sigsTop.reverse ++ [multisigScript m keys]).reverse = multisigScript m keys :: (sigsTop ++ [[]]) := by
+      simp
+    have hany : (sigsTop ++ [([] : Bytes)]).any (fun it => decide (it.length > MAX_SCRIPT_ELEMENT_SIZE)) = false := by
+      rw [List.any_eq_false]
+      intro x hx
+      have hx520 : x.length ≤ 520 := by
+        rcases List.mem_append.mp hx with h | h
+        · exact hsigs x h
+        · simp at h; rw [h]; simp
+      simp [MAX_SCRIPT_ELEMENT_SIZE]; omega
+    simp only [hplen, WITNESS_V0_SCRIPTHASH_SIZE, hrev, hprog]
+    simp [hany, bind, pure]
+    have : evalScriptM (m := Id) (fun a b c d => chk a b c d) (sigsTop ++ [[]]) (multisigScript m keys) flags tx .witnessV0
+        = .ok [[1]] := hev
+    rw [this]
+    simp [castToBool]
+  unfold verifyScript verifyScriptM
+  have hpo : isPushOnly [] = true := by simp [isPushOnly, isPushOnlyAux]
+  simp only [evalScriptM_id, hpo]
+  simp only [Id.run, bind, pure]
+  rw [evalScript_empty]
+  simp only []
+  rw [evalScript_witnessV0Script chk [] prog flags tx (by omega) (by omega) (by simp)]
+  simp only [hw, isWitnessProgram_v0 prog (by omega) (by omega), htrue, witnessV0_not_p2sh prog (Or.inr hplen)]
+  simp only [↓reduceIte]
+  rw [hvw]
+  simp
 
 /-! ## partial signing -/
 
@@ -541,6 +628,346 @@ theorem C05_placeholder_invalid_partial (C : Crypto) (digest : Digest)
   · rfl
   · rw [placeholder_parses]
     simp only [hk, findSignatures]
+
+/-! ## end to end: real ECDSA over the real digest (C01, C04, C10 instantiated) -/
+
+abbrev k1 : CurveParams := Gen.Curves.secp256k1
+
+theorem k1_order : secp256k1Crypto.order = secp256k1N := by decide +kernel
+theorem k1_n : k1.n = secp256k1N := by decide +kernel
+
+/-- an honest public key `d•G` is a reduced curve point of the `n`-torsion -/
+theorem honest_key {d : Int} {Q : Pt} (hpub : mulG k1 0 d = .ok Q) :
+    OnCurve k1 Q ∧ Reduced k1 Q ∧ (k1.n : Int) • toPoint k1 Q = 0 := by
+  obtain ⟨Q', h1, h2, h3, _, h5⟩ := pubkey_spec Gen.Curves.C01_ecdsaOk_secp256k1 0 d
+  rw [hpub] at h1; cases h1
+  exact ⟨h2, h3, h5⟩
+
+/-- **Low-S normalisation keeps the signature valid** (full, from `C01_verify_neg_s`): on secp256k1, for a reduced curve
+point `Q` of the `n`-torsion (every honest key) and a non-zero digest. -/
+theorem C05_lowS_preserves_verify (Q : Pt) (hQ : OnCurve k1 Q) (rQ : Reduced k1 Q)
+    (hQn : (k1.n : Int) • toPoint k1 Q = 0) (z r s : Int) (hz : z ≠ 0) :
+    secp256k1Crypto.verify Q z r (lowS secp256k1Crypto.order s) = secp256k1Crypto.verify Q z r s := by
+  unfold lowS
+  split
+  · exact C01_verify_neg_s Gen.Curves.C01_ecdsaOk_secp256k1 0 Q hQ rQ hQn z r s hz
+  · rfl
+
+/-- what C01 gives for a signature made by the model's signer: ranges, `z ≠ 0`, and ECDSA-verify accepts `(r, low-S(s))`
+for the public key `d•G` -/
+theorem sign_facts {d z r s : Int} {Q : Pt} (hsign : secp256k1Crypto.sign d z = .ok (r, s)) (hpub : mulG k1 0 d = .ok Q) :
+    1 ≤ r ∧ r < secp256k1N ∧ 1 ≤ s ∧ s < secp256k1N ∧
+    secp256k1Crypto.verify Q z r (lowS secp256k1Crypto.order s) = .ok true := by
+  have hs : ∃ v, RFC6979.signWithRecid k1 0 d z = .ok (r, s, v) := by
+    have h : RFC6979.sign k1 0 d z = .ok (r, s) := hsign
+    unfold RFC6979.sign Curve.sign at h
+    unfold RFC6979.signWithRecid
+    split at h
+    · cases h
+    · rename_i r' s' v' heq
+      cases h
+      exact ⟨v', heq⟩
+  obtain ⟨v, hv⟩ := hs
+  obtain ⟨hz, a1, a2, a3, a4, Q', hQ', hver⟩ :=
+    C01_sign_verifies_rfc6979 Gen.Curves.C01_ecdsaOk_secp256k1 0 0 0 d z r s v hv
+  rw [hpub] at hQ'; cases hQ'
+  obtain ⟨o1, o2, o3⟩ := honest_key hpub
+  have hn : (Gen.Curves.secp256k1.n : Int) = (secp256k1N : Int) := by rw [show Gen.Curves.secp256k1.n = secp256k1N from k1_n]
+  refine ⟨a1, by omega, a3, by omega, ?_⟩
+  rw [C05_lowS_preserves_verify Q o1 o2 o3 z r s hz]
+  exact hver
+
+/-- the SEC encoding of an honest key decodes back to it (C10's round trip) -/
+theorem key_decodes {d x y : Int} {comp : Bool} {key : Bytes} (hpub : mulG k1 0 d = .ok (some (x, y)))
+    (hkey : publicPairToSec x y comp = .ok key) : secp256k1Crypto.secToPair key = some (some (x, y)) := by
+  obtain ⟨o1, o2, o3⟩ := honest_key hpub
+  obtain ⟨x0, x1, y0, y1⟩ := o2
+  have hon : containsXY k1 x y = true := o1
+  have hkey' : Sec.publicPairToSec x y comp = .ok key := by
+    unfold publicPairToSec at hkey
+    cases h : Sec.publicPairToSec x y comp with
+    | ok b => rw [h] at hkey; cases hkey; rfl
+    | error e => rw [h] at hkey; cases hkey
+  have hdec : Sec.secToPublicPair k1 key true = .ok (x, y) := by
+    cases comp with
+    | false =>
+      obtain ⟨blob, e1, _, _, _, e5⟩ := Sec.secToPublicPair_uncompressed k1 Pycoin.C10.C10_field_secp256k1.1 x y x0 x1 y0 y1 true
+      rw [hkey'] at e1; cases e1; exact e5
+    | true =>
+      have ypos : 0 < y := y_pos_of_torsion Gen.Curves.C01_ecdsaOk_secp256k1 hon y0 o3
+      obtain ⟨blob, e1, _, _, _, e5⟩ :=
+        Sec.secToPublicPair_compressed k1 Pycoin.C10.C10_field_secp256k1.1 Pycoin.C10.C10_field_secp256k1.2.1 x y x0 x1 ypos y1 hon true
+      rw [hkey'] at e1; cases e1; exact e5
+  show secToPublicPair k1 key = _
+  unfold secToPublicPair
+  rw [hdec]
+
+
+/-- `CheckSig` of input `idx` of `tx`, fully instantiated: ECDSA-verify (the C01 model of `secp256k1_generator`) of the
+digest C04's model computes (legacy / fork-id closure for the base sigversion, BIP143 closure for witness v0) -/
+def realChk (coin : Coin) (tx : Tx) (us : List (Option TxOut)) (idx : Nat) : PChk :=
+  ecdsaChk secp256k1Crypto (fun sv code => modelSighash coin tx us idx (sv == .witnessV0) code)
+
+/-- signing a fresh single-key input: `signing_solver` returns one canonical signature -/
+theorem fresh_signature (lookup : Lookup) (digest : Digest) (key ph : Bytes) (ht : Nat) (e : Entry) (z r s : Int)
+    (hl : lookup (Hash.hash160 key) = some e) (hz : digest ht = some z)
+    (hsign : secp256k1Crypto.sign e.secret z = .ok (r, s)) (hht : ht ≤ 255)
+    (hr1 : 1 ≤ r) (hr2 : r < secp256k1N) (hs1 : 1 ≤ s) (hs2 : s < secp256k1N) :
+    ∃ sig, binarySignature r (lowS secp256k1Crypto.order s) ht = .ok sig ∧ Canonical ht sig ∧
+      signingSolver secp256k1Crypto lookup digest [key] 1 [] ht (some ph) = .ok [some sig] := by
+  obtain ⟨sig, hsig, hcan, _⟩ := C05_sig_canonical r s ht hr1 hr2 hs1 hs2 hht
+  rw [← k1_order] at hsig
+  refine ⟨sig, hsig, hcan, ?_⟩
+  simp [signingSolver, findSignatures, enumFrom, signLoop, hl, hz, hsign, hsig, assemble, sortSigs, insertSig]
+
+
+theorem ht_le_of_standard {ht : Nat} (h : standardHashType ht) : ht ≤ 255 := by
+  rcases h with h | h | h | h | h | h <;> omega
+
+/-- the script code `CheckSig` sees in a witness-v0 script is the script itself -/
+theorem scriptCodeFor_witness (script : Bytes) (flags : Flags) (tx : TxCtx) (sigs : List Bytes) :
+    scriptCodeFor ⟨script, flags, .witnessV0, tx⟩ ⟨[], [], [], 0, 0⟩ sigs = script := by
+  simp [scriptCodeFor]
+
+/-- common core: the solver's fresh signature for key `d•G` satisfies the real `CheckSig` on script code `code` -/
+theorem fresh_checks (coin : Coin) (tx : Tx) (us : List (Option TxOut)) (idx : Nat) (lookup : Lookup) (ph : Bytes)
+    (d x y z : Int) (comp : Bool) (key code : Bytes) (sv : SigVersion) (ht : Nat) (hht : ht ≤ 255)
+    (hpub : mulG k1 0 d = .ok (some (x, y))) (hkey : publicPairToSec x y comp = .ok key)
+    (hl : lookup (Hash.hash160 key) = some ⟨d, x, y, comp⟩)
+    (hz : modelSighash coin tx us idx (sv == .witnessV0) code ht = some z)
+    (hsign : ∃ r s, secp256k1Crypto.sign d z = .ok (r, s)) :
+    ∃ sig, Canonical ht sig ∧
+      signingSolver secp256k1Crypto lookup (modelSighash coin tx us idx (sv == .witnessV0) code) [key] 1 [] ht (some ph)
+        = .ok [some sig] ∧
+      realChk coin tx us idx sig key code sv = true := by
+  obtain ⟨r, s, hsign⟩ := hsign
+  obtain ⟨a1, a2, a3, a4, hver⟩ := sign_facts hsign hpub
+  obtain ⟨sig, hsig, hcan, hsolve⟩ := fresh_signature lookup _ key ph ht ⟨d, x, y, comp⟩ z r s hl hz hsign hht a1 a2 a3 a4
+  refine ⟨sig, hcan, hsolve, ?_⟩
+  exact C05_ecdsa_chk_accepts secp256k1Crypto k1_order _ sv code key sig (some (x, y)) z r s ht hht a1 a2 a3 a4 hz
+    (key_decodes hpub hkey) hver hsig
+
+/-- **P2WPKH, end to end.**  For every secret `d` with public key `(x, y) = d•G` (as `Generator.__mul__` computes it), every
+transaction and input index, every one-byte hash type: when the lookup holds the key, the digest function (C04's model)
+yields `z` and RFC 6979 signing of `z` returns (the C01 side conditions: `z ≠ 0`, nonce loop within its fuel), the model's
+`signing_solver` emits a signature `sig` such that the consensus specification accepts witness `[sig, key]` for
+`OP_0 <hash160 key>` under every flag set with WITNESS in which the hash type is admissible — with `CheckSig` being
+ECDSA-verify of that very digest.  (`castToBool h`: a program of zero bytes would read as false.) -/
+theorem C05_p2wpkh_end_to_end (coin : Coin) (tx : Tx) (us : List (Option TxOut)) (idx : Nat) (lookup : Lookup) (ph : Bytes)
+    (d x y z : Int) (key h : Bytes) (ht : Nat) (flags : Flags) (txc : TxCtx)
+    (hpub : mulG k1 0 d = .ok (some (x, y))) (hkey : publicPairToSec x y true = .ok key)
+    (hh : Hash.hash160 key = h) (hlen : h.length = 20) (htrue : castToBool h = true)
+    (hl : lookup h = some ⟨d, x, y, true⟩)
+    (hz : modelSighash coin tx us idx true (p2pkhScript h) ht = some z)
+    (hsign : ∃ r s, secp256k1Crypto.sign d z = .ok (r, s))
+    (hw : flags.witness = true) (hht : ht ≤ 255) (hstd : standardHashType ht ∨ flags.strictenc = false) :
+    ∃ sig, solveBase secp256k1Crypto lookup (modelSighash coin tx us idx true (p2pkhScript h)) [] ht (some ph) (.p2pkh h)
+        = .ok [some sig, some key] ∧
+      verifyScript (realChk coin tx us idx) [] (witnessV0Script h) [sig, key] flags txc = none := by
+  obtain ⟨sig, hcan, hsolve, hchk⟩ := fresh_checks coin tx us idx lookup ph d x y z true key (p2pkhScript h) .witnessV0 ht hht
+    hpub hkey (by rw [hh]; exact hl) hz hsign
+  refine ⟨sig, ?_, ?_⟩
+  · simp only [solveBase, hl, hkey]
+    have : ((SigVersion.witnessV0 == SigVersion.witnessV0) = true) := rfl
+    rw [this] at hsolve
+    rw [hsolve]; rfl
+  · apply C05_p2wpkh_signed_valid (realChk coin tx us idx) sig key h ht x y flags txc hw hkey hh hlen htrue hcan hstd
+    rw [scriptCodeFor_witness]
+    exact hchk
+
+/-- **P2SH-P2WPKH, end to end** (as above; scriptSig = the push of `OP_0 <hash160 key>`; needs P2SH and WITNESS). -/
+theorem C05_p2sh_p2wpkh_end_to_end (coin : Coin) (tx : Tx) (us : List (Option TxOut)) (idx : Nat) (lookup : Lookup)
+    (ph : Bytes) (d x y z : Int) (key h hr : Bytes) (ht : Nat) (flags : Flags) (txc : TxCtx)
+    (hpub : mulG k1 0 d = .ok (some (x, y))) (hkey : publicPairToSec x y true = .ok key)
+    (hh : Hash.hash160 key = h) (hlen : h.length = 20) (htrue : castToBool h = true)
+    (hhr : Hash.hash160 (witnessV0Script h) = hr) (hrlen : hr.length = 20)
+    (hl : lookup h = some ⟨d, x, y, true⟩)
+    (hz : modelSighash coin tx us idx true (p2pkhScript h) ht = some z)
+    (hsign : ∃ r s, secp256k1Crypto.sign d z = .ok (r, s))
+    (hp : flags.p2sh = true) (hw : flags.witness = true) (hht : ht ≤ 255)
+    (hstd : standardHashType ht ∨ flags.strictenc = false) :
+    ∃ sig, solveBase secp256k1Crypto lookup (modelSighash coin tx us idx true (p2pkhScript h)) [] ht (some ph) (.p2pkh h)
+        = .ok [some sig, some key] ∧
+      verifyScript (realChk coin tx us idx) (pushesOf [witnessV0Script h]) (p2shScript hr) [sig, key] flags txc = none := by
+  obtain ⟨sig, hcan, hsolve, hchk⟩ := fresh_checks coin tx us idx lookup ph d x y z true key (p2pkhScript h) .witnessV0 ht hht
+    hpub hkey (by rw [hh]; exact hl) hz hsign
+  obtain ⟨hk1, hk2, hk3⟩ := publicPairToSec_shape hkey
+  obtain ⟨hs9, hs73⟩ := valid_sig_length hcan.1
+  refine ⟨sig, ?_, ?_⟩
+  · simp only [solveBase, hl, hkey]
+    have : ((SigVersion.witnessV0 == SigVersion.witnessV0) = true) := rfl
+    rw [this] at hsolve
+    rw [hsolve]; rfl
+  · apply C05_p2sh_p2wpkh_valid (realChk coin tx us idx) sig key h hr flags txc hp hw hh hlen htrue hhr hrlen
+      (by omega) (by omega) (C05_sig_passes_encoding_checks hcan flags hstd)
+    · unfold checkPubKeyEncoding; simp [hk1, hk2 rfl]
+    · rw [scriptCodeFor_witness]; exact hchk
+
+/-- **P2PKH, end to end** (legacy sigversion).  One more side condition than for the witness templates, `hfd`: Core removes
+the pushed signature from the script code before hashing (`FindAndDelete`), the signer hashes the script as it stands; the two
+agree when the push of the signature does not occur in the puzzle script — always, short of the 20-byte hash beginning with
+the signature bytes. -/
+theorem C05_p2pkh_end_to_end (coin : Coin) (tx : Tx) (us : List (Option TxOut)) (idx : Nat) (lookup : Lookup) (ph : Bytes)
+    (d x y z : Int) (comp : Bool) (key h : Bytes) (ht : Nat) (flags : Flags) (txc : TxCtx)
+    (hpub : mulG k1 0 d = .ok (some (x, y))) (hkey : publicPairToSec x y comp = .ok key)
+    (hh : Hash.hash160 key = h) (hlen : h.length = 20)
+    (hl : lookup h = some ⟨d, x, y, comp⟩)
+    (hz : modelSighash coin tx us idx false (p2pkhScript h) ht = some z)
+    (hsign : ∃ r s, secp256k1Crypto.sign d z = .ok (r, s))
+    (hht : ht ≤ 255) (hstd : standardHashType ht ∨ flags.strictenc = false)
+    (hfd : ∀ sig, Canonical ht sig →
+      scriptCodeFor ⟨p2pkhScript h, flags, .base, txc⟩ ⟨[], [], [], 0, 0⟩ [sig] = p2pkhScript h) :
+    ∃ sig scriptSig,
+      solveBase secp256k1Crypto lookup (modelSighash coin tx us idx false (p2pkhScript h)) [] ht (some ph) (.p2pkh h)
+        = .ok [some sig, some key] ∧
+      pushAll [some sig, some key] = .ok scriptSig ∧
+      verifyScript (realChk coin tx us idx) scriptSig (p2pkhScript h) [] flags txc = none := by
+  obtain ⟨sig, hcan, hsolve, hchk⟩ := fresh_checks coin tx us idx lookup ph d x y z comp key (p2pkhScript h) .base ht hht
+    hpub hkey (by rw [hh]; exact hl) hz hsign
+  obtain ⟨sc, hsc, hv⟩ := C05_p2pkh_signed_valid (realChk coin tx us idx) sig key h ht x y comp flags txc hkey hh hlen hcan hstd
+    (by rw [hfd sig hcan]; exact hchk)
+  refine ⟨sig, sc, ?_, hsc, hv⟩
+  simp only [solveBase, hl, hkey]
+  have : ((SigVersion.base == SigVersion.witnessV0) = false) := rfl
+  rw [this] at hsolve
+  rw [hsolve]; rfl
+
+/-- **P2PK, end to end** (legacy sigversion; `hfd` as for P2PKH). -/
+theorem C05_p2pk_end_to_end (coin : Coin) (tx : Tx) (us : List (Option TxOut)) (idx : Nat) (lookup : Lookup) (ph : Bytes)
+    (d x y z : Int) (comp : Bool) (key : Bytes) (ht : Nat) (flags : Flags) (txc : TxCtx)
+    (hpub : mulG k1 0 d = .ok (some (x, y))) (hkey : publicPairToSec x y comp = .ok key)
+    (hl : lookup (Hash.hash160 key) = some ⟨d, x, y, comp⟩)
+    (hz : modelSighash coin tx us idx false (p2pkScript key) ht = some z)
+    (hsign : ∃ r s, secp256k1Crypto.sign d z = .ok (r, s))
+    (hht : ht ≤ 255) (hstd : standardHashType ht ∨ flags.strictenc = false)
+    (hfd : ∀ sig, Canonical ht sig →
+      scriptCodeFor ⟨p2pkScript key, flags, .base, txc⟩ ⟨[], [], [], 0, 0⟩ [sig] = p2pkScript key) :
+    ∃ sig scriptSig,
+      solveBase secp256k1Crypto lookup (modelSighash coin tx us idx false (p2pkScript key)) [] ht (some ph) (.p2pk key)
+        = .ok [some sig] ∧
+      pushAll [some sig] = .ok scriptSig ∧
+      verifyScript (realChk coin tx us idx) scriptSig (p2pkScript key) [] flags txc = none := by
+  obtain ⟨sig, hcan, hsolve, hchk⟩ := fresh_checks coin tx us idx lookup ph d x y z comp key (p2pkScript key) .base ht hht
+    hpub hkey hl hz hsign
+  obtain ⟨hk1, _, hk3⟩ := publicPairToSec_shape hkey
+  obtain ⟨hs9, hs73⟩ := valid_sig_length hcan.1
+  have : ((SigVersion.base == SigVersion.witnessV0) = false) := rfl
+  rw [this] at hsolve
+  refine ⟨sig, pushesOf [sig], ?_, ?_, ?_⟩
+  · simp only [solveBase]; exact hsolve
+  · have := pushAll_direct [sig] (by intro d hd; simp at hd; subst hd; omega)
+    simpa using this
+  · apply C05_p2pk_valid (realChk coin tx us idx) sig key flags txc (by omega) (by omega) (by omega) (by omega)
+      (C05_sig_passes_encoding_checks hcan flags hstd)
+    · unfold checkPubKeyEncoding; simp [hk1]
+    · rw [hfd sig hcan]; exact hchk
+
+
+section digests
+open Pycoin.Sighash
+
+/-- **The digest the witness templates are signed over is the BIP143 digest** (C04): for every well-formed transaction the
+`z` of `C05_p2wpkh_end_to_end` / `C05_p2sh_p2wpkh_end_to_end` / `C05_multisig_p2wsh_valid_partial` exists and is the
+consensus definition (fork-id variants: `C04_forkid_eq_bch`, `C04_forkid_eq_btg`). -/
+theorem C05_witness_digest_is_bip143 (c : Coin) (hc : c ≠ .btg) (tx : Tx) (hwf : tx.WF) (us : List (Option TxOut)) (idx : Nat)
+    (hidx : idx < tx.ins.length) (o : TxOut) (hu : us[idx]? = some (some o)) (hamt : U64 o.value) (script : Bytes)
+    (hlen : LenOk script) (ht : Nat) (hht : ht < 2 ^ 32) :
+    modelSighash c tx us idx true script ht =
+      some ((beNat (Spec.Sighash.signatureHashBip143 (sha (segwitSingleSha c)) tx idx script o.value.toNat ht) : Nat) : Int) := by
+  unfold modelSighash witnessSighashF
+  simp only [if_true]
+  rw [C04_bip143_digest_eq c hc tx hwf us idx hidx o hu hamt script hlen ht hht]
+
+/-- **The digest the legacy templates are signed over is Core's legacy `SignatureHash`** (C04), on the coins without
+replay protection. -/
+theorem C05_legacy_digest_is_consensus (c : Coin) (hc' : requiresForkId c = false) (tx : Tx) (us : List (Option TxOut))
+    (hwf : tx.WF) (idx : Nat) (hidx : idx < tx.ins.length) (script : Bytes) (hc : Spec.Sighash.Complete script) (hlen : LenOk script)
+    (ht : Nat) (hht : ht < 2 ^ 32) :
+    modelSighash c tx us idx false script ht =
+      some ((beNat (Spec.Sighash.signatureHashLegacy (sha (legacySingleSha c)) tx idx script ht) : Nat) : Int) := by
+  unfold modelSighash sighashF
+  simp only [Bool.false_eq_true, if_false, deleteSignatures]
+  cases closureDeletesSigs c <;>
+    simp [C04_legacy_digest_eq c hc' tx us hwf idx hidx script hc hlen ht hht]
+
+
+end digests
+
+/-! ## Keychain -/
+
+/-- **Keychain lookups are a function of what was added.**  `get` answers from the cache, else through the registered path of
+the hash and the secrets with that fingerprint; it never changes the path table, the script table or the secrets, and the only
+thing it stores is more (derived) keys at the end of the cache — a miss stores nothing that a later lookup reads. -/
+theorem C05_keychain_get_spec (derive : KeyRec → String → Option KeyRec) (kc kc' : Keychain) (h : Bytes) (r : Option Entry)
+    (hg : Keychain.get derive kc h = .ok (kc', r)) :
+    kc'.paths = kc.paths ∧ kc'.secrets = kc.secrets ∧ kc'.p2s = kc.p2s ∧ (∃ extra, kc'.cache = kc.cache ++ extra) ∧
+    r = assocGet h kc'.cache := by
+  unfold Keychain.get at hg
+  split at hg
+  · rename_i e he
+    cases hg
+    exact ⟨rfl, rfl, rfl, ⟨[], by simp⟩, he.symm⟩
+  · rename_i hnone
+    split at hg
+    · cases hg
+      exact ⟨rfl, rfl, rfl, ⟨[], by simp⟩, hnone.symm⟩
+    · split at hg
+      · cases hg
+      · rename_i kc1 hrun
+        cases hg
+        obtain ⟨a1, a2, a3, a4⟩ := cacheDerived_spec derive _ _ _ _ _ hrun
+        exact ⟨a1, a2, a3, a4, rfl⟩
+
+/-- **No negative caching.**  Whatever lookups (hits or misses) came before — `kc` is any state — once the path of `h` is
+registered and a secret with that path's fingerprint whose sub-key hashes to `h` is present (`add_secret`), `get h` answers
+with a key.  In particular: miss, `add_secret`, then hit. -/
+theorem C05_keychain_no_negative_cache (derive : KeyRec → String → Option KeyRec) (kc : Keychain) (h : Bytes)
+    (path : String) (fp : Bytes) (k sub : KeyRec)
+    (hpath : kc.paths.find? (·.1 = h) = some (h, path, fp))
+    (hk : k ∈ kc.secrets) (hfp : k.fingerprint = fp) (hd : derive k path = some sub)
+    (hh : keyHash160 sub true = .ok h ∨ keyHash160 sub false = .ok h) (kc' : Keychain) (r : Option Entry)
+    (hg : Keychain.get derive kc h = .ok (kc', r)) : r.isSome = true := by
+  unfold Keychain.get at hg
+  split at hg
+  · cases hg; rfl
+  · rw [hpath] at hg
+    simp only at hg
+    split at hg
+    · cases hg
+    · rename_i kc1 hrun
+      cases hg
+      exact cacheDerived_hit derive fp path h k sub hfp hd hh _ _ _ hk hrun
+
+/-- `add_secret` keeps everything that was known and makes the key's own two hashes answer -/
+theorem C05_keychain_add_secret (kc kc' : Keychain) (k : KeyRec) (ha : kc.addSecret k = .ok kc') :
+    kc'.paths = kc.paths ∧ k ∈ kc'.secrets ∧ (∀ k', k' ∈ kc.secrets → k' ∈ kc'.secrets) ∧
+    (∀ h, (assocGet h kc.cache).isSome = true → (assocGet h kc'.cache).isSome = true) := by
+  unfold Keychain.addSecret at ha
+  obtain ⟨a1, a2, _, hc, hu, _, _, a4⟩ := addKeyToCache_spec ha
+  simp only at a1 a2 a4
+  refine ⟨a1, ?_, ?_, ?_⟩
+  · rw [a2]; split
+    · assumption
+    · simp
+  · intro k' hk'; rw [a2]; split
+    · exact hk'
+    · exact List.mem_append_left _ hk'
+  · intro h hs; rw [a4]; exact assocGet_isSome_append h _ _ hs
+
+
+/-- the seeded-defect shape, spelled out: a lookup that misses, then `add_secret` of the master whose registered sub-key
+hashes to `h`, then the same lookup: it answers -/
+theorem C05_keychain_miss_then_hit (derive : KeyRec → String → Option KeyRec) (kc kc1 kc2 kc3 : Keychain) (h : Bytes)
+    (path : String) (fp : Bytes) (k sub : KeyRec) (r : Option Entry)
+    (hpath : kc.paths.find? (·.1 = h) = some (h, path, fp))
+    (hmiss : Keychain.get derive kc h = .ok (kc1, none))
+    (hadd : kc1.addSecret k = .ok kc2)
+    (hfp : k.fingerprint = fp) (hd : derive k path = some sub)
+    (hh : keyHash160 sub true = .ok h ∨ keyHash160 sub false = .ok h)
+    (hg : Keychain.get derive kc2 h = .ok (kc3, r)) : r.isSome = true := by
+  obtain ⟨p1, _, _, _, _⟩ := C05_keychain_get_spec derive kc kc1 h none hmiss
+  obtain ⟨p2, hk, _, _⟩ := C05_keychain_add_secret kc1 kc2 k hadd
+  exact C05_keychain_no_negative_cache derive kc2 h path fp k sub (by rw [p2, p1]; exact hpath) hk hfp hd hh kc3 r hg
 
 /-! ## frame -/
 
